@@ -109,6 +109,30 @@ theorem multi_error_kind (r : Reg) (ks : List Key) :
     (ks.Nodup → (¬ ∀ k ∈ ks, contains r k = true) → tryGetMultipleMut r ks = .error .notFound) :=
   multi_error_kind' r ks
 
+/-- The panicking accessor `get_multiple_mut` panics exactly when `try_get_multiple_mut` is an error (a type
+repeats or is missing) — it never hands out references then, and changes nothing — and otherwise behaves as
+the fallible one (same cells, same writes). -/
+theorem multi_panicking (r : Reg) (ks : List Key) (d : Nat) :
+    ((∃ cs, tryGetMultipleMut r ks = .ok cs) → step r (.multiP ks d) = step r (.multi ks d)) ∧
+    ((¬ ∃ cs, tryGetMultipleMut r ks = .ok cs) → step r (.multiP ks d) = (r, .panic)) ∧
+    (step r (.multiP ks d) = (r, .panic) ↔ ¬ (ks.Nodup ∧ ∀ k ∈ ks, contains r k = true)) := by
+  have hiff := multi_ok_iff' r ks
+  cases h : tryGetMultipleMut r ks with
+  | ok cs =>
+    have hok : ks.Nodup ∧ ∀ k ∈ ks, contains r k = true := hiff.mp ⟨cs, h⟩
+    refine ⟨fun _ => by simp [step, h], fun hn => absurd ⟨cs, rfl⟩ hn, ?_⟩
+    constructor
+    · intro hc
+      simp only [step, h] at hc
+      cases (Prod.ext_iff.mp hc).2
+    · intro hx; exact absurd hok hx
+  | error e =>
+    have hno : ¬ (ks.Nodup ∧ ∀ k ∈ ks, contains r k = true) := by
+      intro hx; obtain ⟨cs, hc⟩ := hiff.mpr hx; rw [h] at hc; cases hc
+    refine ⟨?_, fun _ => by simp [step, h], ?_⟩
+    · rintro ⟨cs, hc⟩; cases hc
+    · exact ⟨fun _ => hno, fun _ => by simp [step, h]⟩
+
 /-- On success the returned references point to pairwise distinct existing cells, the `j`-th one being the
 innermost cell of the `j`-th type — the aliasing-freedom the `unsafe` block relies on. -/
 theorem multi_distinct_cells (r : Reg) (ks : List Key) (cs : List (Nat × Key))
@@ -205,7 +229,7 @@ example : holdsOn [.ex (.op (.ins (.ty 0) 1)), .ex (.hold (.ty 0) 1 false .nil),
 example : ∃ g, g ∈ (mrun M.init [.ex (.op (.ins (.ty 0) 1)), .borMut (.ty 0)]).1.guards ∧ g.excl = true :=
   ⟨⟨0, 0, .ty 0, true⟩, by decide, rfl⟩
 example : nonWriting (.bor (.ty 0)) = true ∧ nonWriting (.drop 0) = true ∧ nonWriting (.sh (.tryGet (.ty 0))) = true ∧
-    nonWriting (.sh (.set (.ty 0) 1)) = false := by decide
+    nonWriting (.sh (.set (.ty 0) 1)) = false := ⟨rfl, rfl, rfl, rfl⟩
 example : find (mrun M.init [.ex (.op (.ins (.ty 0) 1)), .ex (.op .push), .ex (.op (.ins (.ty 1) 1)),
     .borMut (.ty 1)]).1.reg (.ty 0) = some 1 := by decide
 example : nodupKeys [[(.ty 1, fresh 2), (.ty 0, fresh 4)], [(.ty 0, fresh 1)]] := by
